@@ -330,4 +330,455 @@ theorem getPeakIndexAndHeight_spec (g : Nat → D) (n i : Nat) (hlt : i < n) (hn
 
 end Q
 
+/-! ## Part 3: the `HashMap` of known digests -/
+
+section K
+variable {D : Type} [DecidableEq D] (H : D → D → D) (g : Nat → D)
+
+omit [DecidableEq D] in
+theorem AMap.get?_mem : ∀ (m : AMap D) (k : Nat) (d : D), m.get? k = some d → (k, d) ∈ m := by
+  intro m
+  induction m with
+  | nil => intro k d h; simp [AMap.get?] at h
+  | cons p m ih =>
+    intro k d h
+    obtain ⟨k', v⟩ := p
+    rw [AMap.get?] at h
+    by_cases hk : k' = k
+    · rw [if_pos hk] at h
+      cases h; subst hk; exact List.mem_cons_self
+    · rw [if_neg hk] at h
+      exact List.mem_cons_of_mem _ (ih k d h)
+
+omit [DecidableEq D] in
+theorem AMap.get?_of_key : ∀ (m : AMap D) (k : Nat), k ∈ m.map (·.1) → ∃ d, m.get? k = some d := by
+  intro m
+  induction m with
+  | nil => intro k h; simp at h
+  | cons p m ih =>
+    intro k h
+    obtain ⟨k', v⟩ := p
+    rw [AMap.get?]
+    by_cases hk : k' = k
+    · rw [if_pos hk]; exact ⟨v, rfl⟩
+    · rw [if_neg hk]
+      apply ih
+      simp only [List.map_cons, List.mem_cons] at h
+      rcases h with h | h
+      · exact absurd h.symm hk
+      · exact h
+
+/-- every entry of the map is the digest of the block that its key denotes -/
+def Sound (m : AMap D) : Prop :=
+  ∀ x d, (x, d) ∈ m → ∃ l b, x = nodeIdx l b ∧ nodeIdx l b < 2 ^ 64 ∧ d = sub H g l b
+
+omit [DecidableEq D] in
+/-- a sound map that has the key of a block returns the digest of that block -/
+theorem Sound.get? {m : AMap D} (hs : Sound H g m) (l b : Nat) (hk : nodeIdx l b ∈ m.map (·.1)) :
+    m.get? (nodeIdx l b) = some (sub H g l b) := by
+  obtain ⟨d, hd⟩ := AMap.get?_of_key m _ hk
+  obtain ⟨l', b', he, hlt, hv⟩ := hs _ _ (AMap.get?_mem m _ _ hd)
+  obtain ⟨rfl, rfl⟩ := nodeIdx_inj l' b' l b hlt he.symm
+  rw [hd, hv]
+
+omit [DecidableEq D] in
+theorem Sound.insert {m : AMap D} (hs : Sound H g m) (l b : Nat) (hlt : nodeIdx l b < 2 ^ 64) :
+    Sound H g (m.insert (nodeIdx l b) (sub H g l b)) := by
+  intro x d hx
+  unfold AMap.insert at hx
+  rcases List.mem_cons.mp hx with h | h
+  · cases h; exact ⟨l, b, rfl, hlt, rfl⟩
+  · exact hs x d h
+
+omit [DecidableEq D] in
+theorem foldl_insert_eq (L : List (Nat × D)) : ∀ m0 : AMap D,
+    L.foldl (fun m (x : Nat × D) => AMap.insert m x.1 x.2) m0 = L.reverse ++ m0 := by
+  induction L with
+  | nil => intro m0; rfl
+  | cons p L ih =>
+    intro m0
+    obtain ⟨i, d⟩ := p
+    rw [List.foldl_cons, ih]
+    simp [AMap.insert]
+
+/-- the map built from the old peaks -/
+def knownPeaks (n : Nat) : AMap D :=
+  ((TF.Spec.Mmr.bitsBelow 64 n).map fun j => (nodeIdx j (n / 2 ^ j - 1), sub H g j (n / 2 ^ j - 1))).reverse
+
+omit [DecidableEq D] in
+theorem known0_eq (n : Nat) (hn : n < 2 ^ 63) :
+    ((((TF.Spec.Mmr.bitsBelow 64 n).map fun j => nodeIdx j (n / 2 ^ j - 1)).zip (peaks H n g)).foldl
+      (fun m (x : Nat × D) => AMap.insert m x.1 x.2) ([] : AMap D)) = knownPeaks H g n := by
+  rw [foldl_insert_eq, peaks_bitsBelow H n 64 g (by omega), List.zip_map', List.append_nil]
+  rfl
+
+omit [DecidableEq D] in
+theorem knownPeaks_sound (n : Nat) (hn : n < 2 ^ 63) : Sound H g (knownPeaks H g n) := by
+  intro x d hx
+  unfold knownPeaks at hx
+  rw [List.mem_reverse, List.mem_map] at hx
+  obtain ⟨j, hj, he⟩ := hx
+  cases he
+  have hbit := ((mem_bitsBelow n 64 j).mp hj).2
+  have e : n / 2 ^ j - 1 + 1 = n / 2 ^ j := by
+    generalize n / 2 ^ j = q at hbit ⊢; omega
+  refine ⟨j, n / 2 ^ j - 1, rfl, ?_, rfl⟩
+  apply nodeIdx_lt_of_block _ _ n _ hn
+  rw [e]
+  exact Nat.div_mul_le_self n (2 ^ j)
+
+omit [DecidableEq D] in
+theorem knownPeaks_key (n j : Nat) (hj : j < 64) (hbit : n / 2 ^ j % 2 = 1) :
+    nodeIdx j (n / 2 ^ j - 1) ∈ (knownPeaks H g n).map (·.1) := by
+  unfold knownPeaks
+  rw [List.mem_map]
+  refine ⟨(nodeIdx j (n / 2 ^ j - 1), sub H g j (n / 2 ^ j - 1)), ?_, rfl⟩
+  rw [List.mem_reverse, List.mem_map]
+  exact ⟨j, (mem_bitsBelow n 64 j).mpr ⟨hj, hbit⟩, rfl⟩
+
+omit [DecidableEq D] in
+theorem knownFromAppend_nil_left (stop : List Nat) (stopAt : Option Nat) (pks : List D) (count : Nat) (acc : D)
+    (known : AMap D) : knownFromAppend H stop stopAt [] pks count acc known = known := by
+  rw [knownFromAppend]; intro _ _ _ _ h; cases h
+
+omit [DecidableEq D] in
+theorem knownFromAppend_nil_right (stop : List Nat) (stopAt : Option Nat) (nis : List Nat) (count : Nat) (acc : D)
+    (known : AMap D) : knownFromAppend H stop stopAt nis [] count acc known = known := by
+  rw [knownFromAppend]; intro _ _ _ _ _ h; cases h
+
+omit [DecidableEq D] in
+/-- the loop only adds entries -/
+theorem knownFromAppend_keys_mono (stop : List Nat) (stopAt : Option Nat) (x : Nat) :
+    ∀ (nis : List Nat) (pks : List D) (count : Nat) (acc : D) (known : AMap D),
+    x ∈ known.map (·.1) → x ∈ (knownFromAppend H stop stopAt nis pks count acc known).map (·.1) := by
+  intro nis
+  induction nis with
+  | nil => intro pks count acc known h; rw [knownFromAppend_nil_left]; exact h
+  | cons ni nis ih =>
+    intro pks count acc known h
+    cases pks with
+    | nil => rw [knownFromAppend_nil_right]; exact h
+    | cons pk pks =>
+      have h' : x ∈ (AMap.insert known ni acc).map (·.1) := by
+        unfold AMap.insert; simp only [List.map_cons, List.mem_cons]; exact Or.inr h
+      rw [knownFromAppend]
+      simp only
+      split
+      · exact h'
+      · split
+        · exact h'
+        · exact ih _ _ _ _ h'
+
+omit [DecidableEq D] in
+/-- the loop inserts the `m`-th added node index unless it stopped before -/
+theorem knownFromAppend_reaches (stop : List Nat) (stopAt : Option Nat) (x : Nat) :
+    ∀ (m : Nat) (nis : List Nat) (pks : List D) (count : Nat) (acc : D) (known : AMap D),
+    nis[m]? = some x → m < pks.length → (∀ k, k < m → stopAt ≠ some (count + k)) →
+    (∀ k y, k < m → nis[k]? = some y → y ∉ stop) →
+    x ∈ (knownFromAppend H stop stopAt nis pks count acc known).map (·.1) := by
+  intro m
+  induction m with
+  | zero =>
+    intro nis pks count acc known hx hp _ _
+    match nis, pks, hx, hp with
+    | ni :: nis, pk :: pks, hx, _ =>
+      simp only [List.getElem?_cons_zero, Option.some.injEq] at hx
+      subst hx
+      have h' : ni ∈ (AMap.insert known ni acc).map (·.1) := by
+        unfold AMap.insert; simp
+      rw [knownFromAppend]
+      simp only
+      split
+      · exact h'
+      · split
+        · exact h'
+        · exact knownFromAppend_keys_mono H stop stopAt ni _ _ _ _ _ h'
+  | succ m ih =>
+    intro nis pks count acc known hx hp hsa hst
+    match nis, pks, hx, hp with
+    | ni :: nis, pk :: pks, hx, hp =>
+      simp only [List.getElem?_cons_succ] at hx
+      simp only [List.length_cons, Nat.add_lt_add_iff_right] at hp
+      have h1 : stopAt ≠ some count := by simpa using hsa 0 (by omega)
+      have h2 : ni ∉ stop := hst 0 ni (by omega) (by simp)
+      have h2' : stop.contains ni = false := by simpa using h2
+      rw [knownFromAppend]
+      simp only [h1, if_false, h2']
+      apply ih nis pks (count + 1) _ _ hx hp
+      · intro k hk
+        have := hsa (k + 1) (by omega)
+        rwa [Nat.add_assoc, Nat.add_comm 1 k]
+      · intro k y hk hy
+        exact hst (k + 1) y (by omega) (by simpa using hy)
+
+omit [DecidableEq D] in
+/-- soundness of the loop on the from-scratch peaks: it inserts the digests of the blocks `(k, n / 2^k)` on the right
+    spine above the new leaf -/
+theorem knownFromAppend_sound (stop : List Nat) (stopAt : Option Nat) (n : Nat) (hn : n + 1 < 2 ^ 63) :
+    ∀ (m c : Nat) (pks : List D) (count : Nat) (known : AMap D), c + m ≤ trailingOnes n + 1 → Sound H g known →
+    (∀ k p, pks[k]? = some p → c + k < trailingOnes n → p = sub H g (c + k) (n / 2 ^ (c + k) - 1)) →
+    Sound H g (knownFromAppend H stop stopAt ((List.range' c m).map fun k => nodeIdx k (n / 2 ^ k)) pks count
+      (sub H g c (n / 2 ^ c)) known) := by
+  intro m
+  induction m with
+  | zero =>
+    intro c pks count known _ hs _
+    rw [List.range'_zero, List.map_nil, knownFromAppend_nil_left]; exact hs
+  | succ m ih =>
+    intro c pks count known hc hs hp
+    rw [List.range'_succ, List.map_cons]
+    cases pks with
+    | nil => rw [knownFromAppend_nil_right]; exact hs
+    | cons pk pks =>
+      have hs' := Sound.insert H g hs c (n / 2 ^ c) (spine_lt n c hn (by omega))
+      rw [knownFromAppend]
+      simp only
+      split
+      · exact hs'
+      · split
+        · exact hs'
+        · by_cases hct : c < trailingOnes n
+          · have hpk := hp 0 pk (by simp) (by omega)
+            simp only [Nat.add_zero] at hpk
+            have hbit := trailingOnes_bit_lt c n hct
+            have hacc : H pk (sub H g c (n / 2 ^ c)) = sub H g (c + 1) (n / 2 ^ (c + 1)) := by
+              rw [hpk]
+              conv => rhs; rw [sub]
+              have e1 : 2 * (n / 2 ^ (c + 1)) = n / 2 ^ c - 1 := by rw [div_two_pow_succ']; omega
+              have e2 : 2 * (n / 2 ^ (c + 1)) + 1 = n / 2 ^ c := by rw [div_two_pow_succ']; omega
+              rw [e2, e1]
+            rw [hacc]
+            apply ih (c + 1) pks (count + 1) _ (by omega) hs'
+            intro k p hk hlt
+            have := hp (k + 1) p (by simpa using hk) (by omega)
+            rw [this]
+            have e : c + (k + 1) = c + 1 + k := by omega
+            rw [e]
+          · have hm : m = 0 := by omega
+            subst hm
+            rw [List.range'_zero, List.map_nil, knownFromAppend_nil_left]; exact hs'
+
+omit [DecidableEq D] in
+/-- looking up the sibling blocks of the levels `l … l+d-1` above block `b` gives the sibling path -/
+theorem lookupAll_sibPath (M : AMap D) : ∀ (d l b : Nat),
+    (∀ k, k < d → M.get? (nodeIdx (l + k) (sibBlk (b / 2 ^ k))) = some (sub H g (l + k) (sibBlk (b / 2 ^ k)))) →
+    lookupAll M ((List.range d).map fun k => nodeIdx (l + k) (sibBlk (b / 2 ^ k))) = some (sibPath H g l d b) := by
+  intro d
+  induction d with
+  | zero => intro l b _; simp [lookupAll, sibPath]
+  | succ d ih =>
+    intro l b hk
+    rw [List.range_succ_eq_map, List.map_cons, List.map_map, lookupAll]
+    have h0 := hk 0 (by omega)
+    simp only [Nat.add_zero, Nat.pow_zero, Nat.div_one] at h0
+    have hrest := ih (l + 1) (b / 2) (by
+      intro k hkd
+      have := hk (k + 1) (by omega)
+      have e : l + (k + 1) = l + 1 + k := by omega
+      rw [e, div_two_pow_succ] at this
+      exact this)
+    have hcongr : List.map ((fun k => nodeIdx (l + k) (sibBlk (b / 2 ^ k))) ∘ Nat.succ) (List.range d)
+        = List.map (fun k => nodeIdx (l + 1 + k) (sibBlk (b / 2 / 2 ^ k))) (List.range d) := by
+      apply List.map_congr_left
+      intro k _
+      simp only [Function.comp, Nat.succ_eq_add_one]
+      have e : l + (k + 1) = l + 1 + k := by omega
+      rw [e, div_two_pow_succ]
+    rw [hcongr, hrest]
+    simp only [Nat.add_zero, Nat.pow_zero, Nat.div_one, h0]
+    rw [sibPath]
+
+end K
+
+/-! ## Part 4: the routines -/
+
+/-- the sibling blocks between the old peak of leaf `i` (height `h`) and the new peak (height `trailingOnes n`):
+    first the block of the new leaf's spine, then old peaks -/
+theorem sib_above (n i : Nat) (hlt : i < n) (k : Nat) (hk : (locate n i).1 + k < trailingOnes n) :
+    sibBlk (i / 2 ^ (locate n i).1 / 2 ^ k)
+      = if k = 0 then n / 2 ^ (locate n i).1 else n / 2 ^ ((locate n i).1 + k) - 1 := by
+  obtain ⟨h1, h2, h3⟩ := locate_bits n i hlt
+  rw [Nat.div_div_eq_div_mul, ← Nat.pow_add]
+  by_cases hk0 : k = 0
+  · subst hk0
+    rw [if_pos rfl, Nat.add_zero]
+    rw [div_two_pow_succ', div_two_pow_succ'] at h1
+    unfold sibBlk
+    rw [if_pos h3]
+    omega
+  · rw [if_neg hk0]
+    have he := TF.Mmr.div_pow_eq_of_le h1 (by omega : (locate n i).1 + 1 ≤ (locate n i).1 + k)
+    have hbit := trailingOnes_bit_lt _ n hk
+    rw [he]
+    unfold sibBlk
+    rw [if_neg (by omega)]
+
+/-- the parent of the old peak of leaf `i`, as computed by the routines (`peak + (1 << (height + 1))`) -/
+theorem peak_parent_eq (n i : Nat) (hlt : i < n) (hn : n < 2 ^ 63) :
+    add64 (nodeIdx (locate n i).1 (i / 2 ^ (locate n i).1)) (shl1 (inc32 (locate n i).1))
+      = nodeIdx ((locate n i).1 + 1) (n / 2 ^ ((locate n i).1 + 1)) ∧
+    nodeIdx ((locate n i).1 + 1) (n / 2 ^ ((locate n i).1 + 1)) < 2 ^ 64 := by
+  obtain ⟨h1, h2, h3⟩ := locate_bits n i hlt
+  have hle := two_pow_height_le n i hlt
+  generalize (locate n i).1 = h at *
+  have hh : h < 63 := by
+    by_contra hc
+    have : 2 ^ 63 ≤ 2 ^ h := Nat.pow_le_pow_right (by omega) (by omega)
+    omega
+  have hinc : inc32 h = h + 1 := by unfold inc32 W32; omega
+  have hshl : shl1 (h + 1) = 2 ^ (h + 1) := by
+    unfold shl1; have : (h + 1) % 64 = h + 1 := by omega
+    rw [this]
+  have hleft := nodeIdx_left h (i / 2 ^ (h + 1))
+  have e : 2 * (i / 2 ^ (h + 1)) = i / 2 ^ h := by rw [div_two_pow_succ']; omega
+  rw [e, h1] at hleft
+  -- the bound
+  have hq : n / 2 ^ (h + 1) < 2 ^ (62 - h) := by
+    apply Nat.div_lt_of_lt_mul
+    rw [← Nat.pow_add]
+    have : h + 1 + (62 - h) = 63 := by omega
+    rw [this]; exact hn
+  have hmul : (n / 2 ^ (h + 1) + 1) * 2 ^ (h + 1 + 1) ≤ 2 ^ 64 := by
+    calc (n / 2 ^ (h + 1) + 1) * 2 ^ (h + 1 + 1) ≤ 2 ^ (62 - h) * 2 ^ (h + 1 + 1) := Nat.mul_le_mul_right _ (by omega)
+      _ = 2 ^ 64 := by rw [← Nat.pow_add]; congr 1; omega
+  have heq := nodeIdx_eq (h + 1) (n / 2 ^ (h + 1))
+  have hlt64 : nodeIdx (h + 1) (n / 2 ^ (h + 1)) < 2 ^ 64 := by omega
+  refine ⟨?_, hlt64⟩
+  rw [hinc, hshl]
+  unfold add64 W64
+  omega
+
+/-- membership in the list of added nodes -/
+theorem added_contains (n : Nat) (l b : Nat) (hlt : nodeIdx l b < 2 ^ 64) :
+    ((List.range (trailingOnes n + 1)).map fun k => nodeIdx k (n / 2 ^ k)).contains (nodeIdx l b) = true
+      ↔ l ≤ trailingOnes n ∧ b = n / 2 ^ l := by
+  rw [List.contains_iff_mem, List.mem_map]
+  constructor
+  · rintro ⟨k, hk, he⟩
+    have hk' := List.mem_range.mp hk
+    obtain ⟨rfl, rfl⟩ := nodeIdx_inj l b k (n / 2 ^ k) hlt he.symm
+    exact ⟨by omega, rfl⟩
+  · rintro ⟨h1, rfl⟩
+    exact ⟨l, List.mem_range.mpr (by omega), rfl⟩
+
+section R
+variable {D : Type} [DecidableEq D] (H : D → D → D) (g : Nat → D)
+
+omit [DecidableEq D] in
+theorem trailingOnes_le_peaks_length (n : Nat) : trailingOnes n ≤ (peaks H n g).reverse.length := by
+  obtain ⟨rest, hr⟩ := peaks_reverse_low H n g
+  rw [hr]; simp
+
+omit [DecidableEq D] in
+/-- the map of known digests (either loop variant) answers every lookup of the digests missing from the proof of an
+    old leaf whose peak was merged, provided the loop got as far as the leaf's old height -/
+theorem known_lookup (n i : Nat) (hlt : i < n) (hn : n + 1 < 2 ^ 63) (hht : (locate n i).1 < trailingOnes n)
+    (stop : List Nat) (stopAt : Option Nat)
+    (hreach : nodeIdx (locate n i).1 (n / 2 ^ (locate n i).1) ∈
+      (knownFromAppend H stop stopAt ((List.range (trailingOnes n + 1)).map fun k => nodeIdx k (n / 2 ^ k))
+        (peaks H n g).reverse 0 (g n) (knownPeaks H g n)).map (·.1)) :
+    lookupAll (knownFromAppend H stop stopAt ((List.range (trailingOnes n + 1)).map fun k => nodeIdx k (n / 2 ^ k))
+        (peaks H n g).reverse 0 (g n) (knownPeaks H g n))
+      ((List.range (trailingOnes n - (locate n i).1)).map fun k =>
+        nodeIdx ((locate n i).1 + k) (sibBlk (i / 2 ^ (locate n i).1 / 2 ^ k)))
+      = some (sibPath H g (locate n i).1 (trailingOnes n - (locate n i).1) (i / 2 ^ (locate n i).1)) := by
+  have ht64 := TF.Mmr.trailingOnes_lt 64 n (by omega)
+  have hsound : Sound H g (knownFromAppend H stop stopAt
+      ((List.range (trailingOnes n + 1)).map fun k => nodeIdx k (n / 2 ^ k)) (peaks H n g).reverse 0 (g n)
+      (knownPeaks H g n)) := by
+    have h0 : g n = sub H g 0 (n / 2 ^ 0) := by simp [sub]
+    rw [List.range_eq_range', h0]
+    apply knownFromAppend_sound H g stop stopAt n hn (trailingOnes n + 1) 0 _ 0 _ (by omega)
+      (knownPeaks_sound H g n (by omega))
+    intro k p hk hkt
+    rw [Nat.zero_add] at hkt ⊢
+    rw [peaks_reverse_getElem? H n g k hkt] at hk
+    exact (Option.some.inj hk).symm
+  apply lookupAll_sibPath
+  intro k hk
+  apply Sound.get? H g hsound
+  rw [sib_above n i hlt k (by omega)]
+  by_cases hk0 : k = 0
+  · subst hk0; rw [if_pos rfl, Nat.add_zero]; exact hreach
+  · rw [if_neg hk0]
+    apply knownFromAppend_keys_mono
+    exact knownPeaks_key H g n _ (by omega) (trailingOnes_bit_lt _ n (by omega))
+
+/-- **`update_from_append`** on the from-scratch path of an old leaf: the from-scratch path of the longer range, and
+    `true` exactly if the path changed -/
+theorem updateFromAppend_spec (n i : Nat) (hlt : i < n) (hn : n + 1 < 2 ^ 63) :
+    updateFromAppend H (authPathOf H g n i) i n (g n) (peaks H n g)
+      = some (authPathOf H g (n + 1) i, decide (authPathOf H g (n + 1) i ≠ authPathOf H g n i)) := by
+  have hn' : n < 2 ^ 63 := by omega
+  obtain ⟨hpp, hpplt⟩ := peak_parent_eq n i hlt hn'
+  have hcont := added_contains n ((locate n i).1 + 1) (n / 2 ^ ((locate n i).1 + 1)) hpplt
+  have hsucc := locate_succ_height n i hlt
+  obtain ⟨_, happ⟩ := authPathOf_append H g n i hlt
+  unfold updateFromAppend
+  rw [getPeakIndexAndHeight_spec H g n i hlt hn', added_nodeIdx n hn']
+  simp only [Option.bind_eq_bind, Option.bind_some, Option.pure_def, hpp]
+  have hlen : (authPathOf H g n i).length = (locate n i).1 := by unfold authPathOf; rw [sibPath_length]
+  by_cases hht : (locate n i).1 < trailingOnes n
+  · have hc := hcont.mpr ⟨by omega, rfl⟩
+    rw [hc]
+    simp only [Bool.not_true, Bool.false_eq_true, if_false]
+    have ht64 := TF.Mmr.trailingOnes_lt 64 n (by omega)
+    have hlast : (List.map (fun k => nodeIdx k (n / 2 ^ k)) (List.range (trailingOnes n + 1))).getLast?
+        = some (nodeIdx (trailingOnes n) (n / 2 ^ trailingOnes n)) := by
+      simp [List.range_succ]
+    have hspine := nodeIdx_spine n (trailingOnes n) (Nat.le_refl _)
+    have hnc : num_leafs_to_num_nodes (add64 n 1) = nodeIdx (trailingOnes n) (n / 2 ^ trailingOnes n) := by
+      have e : add64 n 1 = n + 1 := by unfold add64 W64; omega
+      rw [e, (TF.Mmr.num_nodes_spec (n + 1) hn).1, hspine]
+      have := TF.Mmr.nodesOf_succ n
+      unfold TF.Mmr.nodesOf at this ⊢
+      omega
+    have hd : (locate n i).1 + (trailingOnes n - (locate n i).1) = trailingOnes n := by omega
+    have hdiv : i / 2 ^ (locate n i).1 / 2 ^ (trailingOnes n - (locate n i).1) = n / 2 ^ trailingOnes n := by
+      rw [Nat.div_div_eq_div_mul, ← Nat.pow_add, hd]
+      exact TF.Mmr.div_pow_eq_of_le (locate_bits n i hlt).1 (by omega)
+    have hauth := get_auth_path_node_indices_spec (locate n i).1 (i / 2 ^ (locate n i).1)
+      (trailingOnes n - (locate n i).1) (nodeIdx (trailingOnes n) (n / 2 ^ trailingOnes n)) (by omega)
+      (by rw [hd, hdiv]; exact spine_lt n _ hn (Nat.le_refl _)) (by rw [hd, hdiv])
+    rw [hd, hdiv] at hauth
+    rw [hlast]
+    simp only [Option.bind_some]
+    rw [hnc, hauth]
+    simp only [Option.bind_some]
+    rw [peak_indices_nodeIdx n hn']
+    simp only [Option.bind_some]
+    rw [known0_eq H g n hn', known_lookup H g n i hlt hn hht]
+    · simp only [Option.bind_some]
+      rw [happ, hsucc, if_pos hht]
+      have hne : authPathOf H g n i ++ sibPath H g (locate n i).1 (trailingOnes n - (locate n i).1)
+          (i / 2 ^ (locate n i).1) ≠ authPathOf H g n i := by
+        intro he
+        have := congrArg List.length he
+        rw [List.length_append, sibPath_length] at this
+        omega
+      simp [hne]
+    · -- the loop reaches the old height of the leaf
+      apply knownFromAppend_reaches H _ none _ (locate n i).1
+      · rw [List.getElem?_map, List.getElem?_range (by omega)]; rfl
+      · have := trailingOnes_le_peaks_length H g n; omega
+      · intro k _; simp
+      · intro k y hk hy hmem
+        rw [List.getElem?_map, List.getElem?_range (by omega)] at hy
+        simp only [Option.map_some, Option.some.injEq] at hy
+        rw [List.mem_map] at hmem
+        obtain ⟨k', _, he⟩ := hmem
+        rw [← hy] at he
+        have := (nodeIdx_inj k (n / 2 ^ k) _ _ (spine_lt n k hn (by omega)) he.symm).1
+        omega
+  · have hc : ¬ ((List.map (fun k => nodeIdx k (n / 2 ^ k)) (List.range (trailingOnes n + 1))).contains
+        (nodeIdx ((locate n i).1 + 1) (n / 2 ^ ((locate n i).1 + 1))) = true) := by
+      intro h; have := (hcont.mp h).1; omega
+    simp only [hc, Bool.not_false, if_true]
+    rw [hsucc, if_neg hht, Nat.sub_self] at happ
+    simp only [sibPath, List.append_nil] at happ
+    rw [happ]
+    simp
+
+end R
+
 end TF.MmrE
